@@ -298,4 +298,62 @@ def standin_batches(tier, seed):
                 cases=cases, distinct=cases, failures=len(fails), exhaustive=False, _fails=fails[:3])
 standin_batches.prop = "C18"
 
-STANDINS = [standin_views, standin_numpy_digits, standin_state_histogram, standin_large_results, standin_packed_storage, standin_sample_frames, standin_batches]
+def standin_vendor_counts(tier, seed):
+    """results handed back as counts of whole-register outcomes (IonQ QPUResult): the cirq.Result made from them has one row per shot in every
+    key, so the joint rows over all keys, rebuilt into register values, are the reported counts, and each key's histogram is its marginal"""
+    import collections
+    import random
+
+    import cirq
+
+    F = "cirq-ionq/cirq_ionq/results.py:QPUResult.to_cirq_result"
+    try:
+        import cirq_ionq
+    except ImportError:
+        return dict(function=F, case="vendor-counts", bound="cirq_ionq not importable", cases=0, distinct=0, failures=0, exhaustive=False, _fails=[])
+    rng = random.Random(seed + 501)
+    cases, fails = 0, []
+    fixed = [({0b000: 4, 0b011: 1, 0b100: 2, 0b111: 4}, 3, {"hi": [0], "lo": [2, 1]}), ({0b01: 3, 0b10: 5}, 2, {"a": [0], "b": [1]}), ({0: 1, 1: 2, 2: 1, 3: 2}, 2, {"b": [1], "a": [0, 1]})]
+    for trial in range(60 if tier == "quick" else 600):
+        if trial < len(fixed):
+            counts, n, md = fixed[trial]
+        else:
+            n = rng.randrange(2, 5)
+            counts = {v_: rng.randrange(1, 5) for v_ in rng.sample(range(2 ** n), rng.randrange(2, min(7, 2 ** n) + 1))}
+            md = {}
+            for name in rng.sample(["k", "a", "zz", "b"], rng.randrange(1, 4)):
+                md[name] = rng.sample(range(n), rng.randrange(1, n + 1))
+        cases += 1
+        args = dict(counts=counts, num_qubits=n, measurement_dict=md)
+        try:
+            qpu = cirq_ionq.QPUResult(dict(counts), num_qubits=n, measurement_dict={k: list(t) for k, t in md.items()})
+            res = qpu.to_cirq_result()
+        except Exception as ex:
+            fails.append(dict(args=args, failed="to_cirq_result-raised", clause=f"{ex!r}"))
+            continue
+        want_joint = collections.Counter()
+        for v_, c_ in counts.items():
+            want_joint[tuple(tuple((v_ >> (n - 1 - t)) & 1 for t in md[k]) for k in md)] += c_
+        got_joint = collections.Counter(tuple(tuple(int(b) for b in res.measurements[k][row]) for k in md) for row in range(res.repetitions))
+        problem = None
+        if res.repetitions != sum(counts.values()):
+            problem = f"{res.repetitions} repetitions for {sum(counts.values())} shots"
+        elif got_joint != want_joint:
+            problem = f"joint rows over keys {list(md)}: {dict(got_joint)}, the reported counts give {dict(want_joint)}"
+        else:
+            for k in md:
+                if res.histogram(key=k) != qpu.counts(k):
+                    problem = f"histogram of key {k!r} {dict(res.histogram(key=k))} != QPUResult.counts {dict(qpu.counts(k))}"
+            mh = res.multi_measurement_histogram(keys=list(md))
+            want_mh = collections.Counter({tuple(cirq.big_endian_bits_to_int(bits) for bits in kk): c_ for kk, c_ in want_joint.items()})
+            if collections.Counter(mh) != want_mh:
+                problem = problem or f"multi_measurement_histogram {dict(mh)} != {dict(want_mh)}"
+        if problem:
+            fails.append(dict(args=args, failed="vendor-counts", clause=problem))
+            if len(fails) >= 3:
+                break
+    return dict(function=F, case="vendor-counts", bound="3 fixed + seeded counts over 2-4 qubits (2-7 distinct outcomes) x 1-3 keys on arbitrary target subsets",
+                cases=cases, distinct=cases, failures=len(fails), exhaustive=False, _fails=fails[:3])
+standin_vendor_counts.prop = "C18"
+
+STANDINS = [standin_views, standin_numpy_digits, standin_state_histogram, standin_large_results, standin_packed_storage, standin_sample_frames, standin_batches, standin_vendor_counts]
